@@ -109,6 +109,13 @@ def engine():
         def _on_connect(dbapi_con, rec):
             dbapi_con.create_function("strpos", 2, _strpos, deterministic=True)
             dbapi_con.create_function("concat", -1, _concat, deterministic=True)
+            # SQLAlchemy's pysqlite dialect installs a floor() UDF that raises on NULL;
+            # replace it (and ceil) by NULL-safe ones so NULL data is not a harness error
+            import math
+            dbapi_con.create_function(
+                "floor", 1, lambda x: None if x is None else math.floor(x), deterministic=True)
+            dbapi_con.create_function(
+                "ceil", 1, lambda x: None if x is None else math.ceil(x), deterministic=True)
 
         @event.listens_for(_engine, "before_cursor_execute")
         def _before(conn, cursor, statement, parameters, context, executemany):
